@@ -71,8 +71,23 @@ def wfm (rules : List Rule) (chosen : Array Bool) (natoms : Nat) : Array Bool ×
       if t' == t then (t, u) else go fuel t'
   go (natoms + 1) (Array.replicate natoms false)
 
-/-- Atoms reachable from the roots through rule bodies (positive and negative). -/
+/-- The dependency program of `rules` for `roots`: a fact for every root and a rule `b :- head` for every body atom
+    `b` (positive or negative) of every rule. Its least model is the set of atoms reachable from the roots. -/
+def depRules (rules : List Rule) (roots : List Nat) : List Rule :=
+  roots.map (fun a => ⟨a, [], [], none⟩) ++
+    rules.flatMap (fun r => (r.pos ++ r.neg).map (fun b => ⟨b, [r.head], [], none⟩))
+
+/-- Atoms reachable from the roots through rule bodies (positive and negative): the least model of `depRules`
+    (proved: `ProbLogProofs.C01.C01_relevant_iff_reach`). -/
 def relevantAtoms (rules : List Rule) (natoms : Nat) (roots : List Nat) : Array Bool :=
+  gamma (depRules rules roots) #[] natoms #[]
+
+/-- The former worklist formulation of `relevantAtoms`, kept for reference only (not used by `run`). Its fuel does not
+    bound the work: one step is spent per *popped* atom, and a rule pushes its whole body, so programs whose bodies are
+    long relative to `natoms` (e.g. `0 :- 1,…,1,2` with 20 copies of `1`) exhaust it before every reachable atom is
+    marked (`ProbLogProofs.C01.C01_worklist_fuel_insufficient`). On programs where the worklist empties before the
+    fuel does, and all atoms are `< natoms`, both compute the reachable set. -/
+def relevantAtomsWorklist (rules : List Rule) (natoms : Nat) (roots : List Nat) : Array Bool :=
   let rec go : Nat → Array Bool → List Nat → Array Bool
     | 0, seen, _ => seen
     | _, seen, [] => seen
